@@ -16,6 +16,10 @@
 //!          nothing happens): its idle connections are polled and end, which frees their slots for the other clones.  A later `1 r`
 //!          falls back to the original runner.
 //!  observation per op: [live tokens, ready flag of the polled future (or 2), wake counters of all futures so far...]
+//! wg_race <trials>: REAL two-thread races of one poll of the shutdown future against the drop of the last token (fresh runner per
+//!    trial, relative timing steered towards coincidence).  Sound oracle: if the poll returned Pending then, once the token is gone,
+//!    the waker it registered must have been woken.  observation: [lost wake-ups seen (must be 0)]; a supporting search for windows
+//!    that no deterministic hook reaches - it can miss, it cannot raise a false alarm.
 //! wg_run <tokens> <ops>: 1 = drop a token, 2 = (unused), 10+w = poll the shutdown future with a token drop forced into window w
 //!    (1 = before the poll, 2 = between Weak::upgrade and waker registration, 3 = after registration before the temporary
 //!    reference is dropped, 4 = after the poll).  observation per poll: [ready, wakes received by the waker of the most recent poll (cumulative), live tokens after]
@@ -37,6 +41,7 @@ pub fn dispatch(mode: &str, a: &Args) -> Option<Args> {
         "tok_run" => tok_run(a),
         "tok_fill" => tok_fill(a),
         "wg_run" => wg_run(a),
+        "wg_race" => wg_race(a),
         _ => return None,
     })
 }
@@ -369,4 +374,112 @@ fn wg_run(a: &Args) -> Args {
         }
     }
     res
+}
+
+
+/// see the module comment: wg_race
+fn wg_race(a: &Args) -> Args {
+    use std::sync::atomic::AtomicBool;
+    struct Shared {
+        slot: Mutex<Option<Token>>,
+        ready: AtomicUsize,
+        armed: AtomicUsize,
+        go: AtomicUsize,
+        dropped: AtomicUsize,
+        quit: AtomicBool,
+    }
+    fn wait_for(var: &AtomicUsize, val: usize) {
+        let mut spins = 0u32;
+        while var.load(Ordering::Acquire) != val {
+            spins += 1;
+            if spins % 20_000 == 0 {
+                std::thread::yield_now();
+            } else {
+                std::hint::spin_loop();
+            }
+        }
+    }
+    let trials = (argn(a, 0) as usize).clamp(1, 2_000_000);
+    let sh = Arc::new(Shared {
+        slot: Mutex::new(None), ready: AtomicUsize::new(0), armed: AtomicUsize::new(0), go: AtomicUsize::new(0),
+        dropped: AtomicUsize::new(0), quit: AtomicBool::new(false),
+    });
+    let th = std::thread::spawn({
+        let sh = sh.clone();
+        move || {
+            let mut trial = 0;
+            loop {
+                trial += 1;
+                let mut spins = 0u32;
+                while sh.ready.load(Ordering::Acquire) != trial {
+                    if sh.quit.load(Ordering::Acquire) {
+                        return;
+                    }
+                    spins += 1;
+                    if spins % 20_000 == 0 {
+                        std::thread::yield_now();
+                    } else {
+                        std::hint::spin_loop();
+                    }
+                }
+                let token = sh.slot.lock().expect("slot").take().expect("token for this trial");
+                sh.armed.store(trial, Ordering::Release);
+                wait_for(&sh.go, trial);
+                drop(token);
+                sh.dropped.store(trial, Ordering::Release);
+            }
+        }
+    });
+    let noop = Waker::from(Arc::new(Count(AtomicUsize::new(0))));
+    let mut noop_cx = Context::from_waker(&noop);
+    let mut delay: i64 = 200;
+    let mut rng: u64 = 0x9e37_79b9_7f4a_7c15;
+    let mut lost = 0u128;
+    let start = std::time::Instant::now();
+    for trial in 1..=trials {
+        if start.elapsed() > std::time::Duration::from_secs(20) {
+            break;
+        }
+        let runner = config(64, 1).async_runner();
+        let token = {
+            let fut = runner.get_token();
+            futures_util::pin_mut!(fut);
+            match fut.poll(&mut noop_cx) {
+                Poll::Ready(t) => t,
+                Poll::Pending => panic!("a fresh runner must hand out a token at once"),
+            }
+        };
+        let mut fut = Box::pin(runner.shutdown());
+        let counter = Arc::new(Count(AtomicUsize::new(0)));
+        let waker = Waker::from(counter.clone());
+        let mut cx = Context::from_waker(&waker);
+        *sh.slot.lock().expect("slot") = Some(token);
+        sh.ready.store(trial, Ordering::Release);
+        wait_for(&sh.armed, trial);
+        rng ^= rng << 13;
+        rng ^= rng >> 7;
+        rng ^= rng << 17;
+        let d = (delay + (rng % 41) as i64 - 20).max(0) as u32;
+        sh.go.store(trial, Ordering::Release);
+        for i in 0..d {
+            std::hint::black_box(i);
+        }
+        let first = fut.as_mut().poll(&mut cx);
+        wait_for(&sh.dropped, trial);
+        match first {
+            Poll::Ready(()) => delay = (delay - 1).max(0),
+            Poll::Pending => {
+                delay = (delay + 1).min(100_000);
+                // the last token is gone and the poll has returned: the waker that poll registered must have been woken by now
+                if counter.0.load(Ordering::SeqCst) == 0 {
+                    lost += 1;
+                    break;
+                }
+                assert!(fut.as_mut().poll(&mut cx).is_ready(), "no token is left, the shutdown future must be ready");
+            },
+        }
+    }
+    sh.quit.store(true, Ordering::Release);
+    th.join().expect("dropper thread");
+    vec![vec![lost]]
 }
